@@ -76,7 +76,7 @@ PROPS = {
     "C06": {
         "lean": ["AriVerif.Props.C06"],
         "gen": ["Layouts"],
-        "streams": [s_wire.stream_requests, s_wire.stream_meta],
+        "streams": [s_wire.stream_requests, s_wire.stream_lines_e2e, s_wire.stream_meta],
         "trusted": [KERNEL, HARNESS, "Spec/Ari.lean (the conforming ARI request encoder) is hand-written from the protocol, "
                     "cross-checked with request literals of the repository's tests (examples in Props/C06.lean)",
                     "the request layouts (Requests.schemas) and the adapter wiring (Meta.metaExec) are hand-written tables tied by the "
@@ -152,7 +152,7 @@ PROPS = {
                 "the runs, random schedules of the starting thread against writer, reader and proxy; non-trivial = scenario with pipelined requests",
     },
     "C16": {
-        "lean": ["AriVerif.Props.C16"],
+        "lean": ["AriVerif.Props.C16", "AriVerif.Props.C04S"],
         "gen": [],
         "streams": [s_conc.data_stream(["C16"], "data-cosim-outbound"), s_sender.stream, s_real.stream_outbound],
         "trusted": [KERNEL, HARNESS, "the scheduler shim (harness/shim.py): its semantics for Lock/RLock, Queue (FIFO, unbounded), Event, Thread, ThreadPoolExecutor (FIFO work queue, <= n running, shutdown waits), socket (recv returns a non-empty prefix, b'' at EOF; sendall all-or-exception), virtual clock; the real code runs unmodified, module attributes are patched from the harness",
@@ -192,7 +192,7 @@ PROPS = {
                 "thread; handler absent / True / False / None; pool 1-3 with pool tasks in flight; random schedules; non-trivial = distinct scenario",
     },
     "C04": {
-        "lean": ["AriVerif.Props.C04"],
+        "lean": ["AriVerif.Props.C04", "AriVerif.Props.C04S", "AriVerif.Conc.MetaProj"],
         "gen": [],
         "streams": [s_conc.meta_stream(["C04"], "meta-cosim"), s_wire.stream_meta, s_conc.meta_fine_stream(["C04"])],
         "trusted": [KERNEL, HARNESS, "the scheduler shim (harness/shim.py): Lock/RLock, Queue, Event, Thread, ThreadPoolExecutor (FIFO work queue, <= n running), scripted socket, virtual clock; line-level preemption via sys.settrace in the fine-grained streams",
